@@ -15,7 +15,7 @@ metadata only after force_flush returned Ok; force_flush returns Ok only with no
 error; retirement is guarded by successor_is_durable_or_deleted; Drop drains workers before metadata.
 Not decided: which contents a crash image recovers to (needs crash images, not a static fact).
 """
-DECIDED = ['every accepted mutation is handed to the write buffer (a replacement together with the generation it replaced) unless store configuration says there is no device; no record state is consulted at enqueue time (shared with C19.handoff)', 'admission bound, header-fit bound and field layout of writer and recovery agree (shared with C10.record)', 'writer and recovery token folds agree (shared with C10.token)', 'successor_is_durable_or_deleted memoises only after its verdict, answers true only behind a durable / memoised / deleted generation, and memoises only generations the walk moved past (never the one it stopped at)', "(a) fsync between device write and acknowledging return", "(b) journal/data/clear/publish order and Ok-guards",
+DECIDED = ['released allocations lose their reservation (shared with C09.contain / C08.reservation)', 'every accepted mutation is handed to the write buffer (a replacement together with the generation it replaced) unless store configuration says there is no device; no record state is consulted at enqueue time (shared with C19.handoff)', 'admission bound, header-fit bound and field layout of writer and recovery agree (shared with C10.record)', 'writer and recovery token folds agree (shared with C10.token)', 'successor_is_durable_or_deleted memoises only after its verdict, answers true only behind a durable / memoised / deleted generation, and memoises only generations the walk moved past (never the one it stopped at)', "(a) fsync between device write and acknowledging return", "(b) journal/data/clear/publish order and Ok-guards",
            "(c) flush()/force_flush acknowledgement shape", "(d) retire only after successor durable",
            "(e) Drop: finish_shutdown before metadata before DiskIO::shutdown",
            'recovery frees an owned extent with the length of the generation whose sector it releases',
@@ -949,7 +949,14 @@ def check_handoff(ctx):
     ch(ctx, "C02.handoff")
 
 
+def check_reservations(ctx):
+    """blocks handed back to the allocator on the allocation-failure path must not stay reserved by the entry that held them: the retried entry writes, journals and fsyncs its record into blocks the allocator hands to another record of a later acknowledged flush, and only the last writer survives recovery (same rules as C09.contain/release_allocations and scrub-release = C08.reservation; added after C02-i)"""
+    from rules import C09
+    C09.check_scrub(ctx, "C02.reservation")
+
+
 def check(ctx):
+    check_reservations(ctx)
     check_handoff(ctx)
     check_record_fit(ctx)
     check_token_agreement(ctx)
